@@ -26,6 +26,7 @@ import (
 	"github.com/nuts-foundation/go-did/did"
 	"github.com/nuts-foundation/go-stoabs"
 	"github.com/nuts-foundation/nuts-node/crypto/hash"
+	"sort"
 )
 
 func writeEventList(tx stoabs.WriteTx, newEventList eventList, id did.DID) error {
@@ -116,7 +117,14 @@ func (tl *store) applyFrom(tx stoabs.WriteTx, base *event, applyList []event) er
 			return fmt.Errorf("read metadata failed: %w", err)
 		}
 		metadata = &m
-		b, err := conflictedWriter.Get(stoabs.BytesKey(document.ID.String()))
+	}
+	if len(applyList) > 0 {
+		// The DID may already be conflicted, also when the new event becomes the first of the list (base == nil).
+		first, err := readDocumentFromEvent(tx, applyList[0])
+		if err != nil {
+			return fmt.Errorf("read document failed: %w", err)
+		}
+		b, err := conflictedWriter.Get(stoabs.BytesKey(first.ID.String()))
 		if err != nil && !errors.Is(err, stoabs.ErrKeyNotFound) {
 			return err
 		}
@@ -252,7 +260,13 @@ outer:
 	}
 
 	txRefReader := tx.GetShelfReader(transactionIndexShelf)
+	// iterate in a fixed order: the merge result (and its hash) must not depend on map iteration order
+	unconsumedRefs := make([]string, 0, len(unconsumed))
 	for k := range unconsumed {
+		unconsumedRefs = append(unconsumedRefs, k)
+	}
+	sort.Strings(unconsumedRefs)
+	for _, k := range unconsumedRefs {
 		st, _ := hash.ParseHex(k)
 		newMeta.SourceTransactions = append(newMeta.SourceTransactions, st)
 		// get old doc by txRef ...
